@@ -126,6 +126,7 @@ def utf8(vc, u):
             vc.assume(False)
     import z3
     e = _uf("encode_utf-8_strict", _S(), _S())(u.t)
+    vc.assume(SBool(_uf("encodable_utf-8", _S(), _Bo())(u.t)))        # requires: no lone surrogates
     vc.assume(SBool(z3.InRe(e, z3.Star(z3.Range(chr(0), chr(255))))))
     vc.assume(SBool(z3.Length(e) >= z3.Length(u.t)))
     return SBytes(e)
@@ -322,8 +323,15 @@ def mk_flow20(vc, mode, fields, is_replay=None, metadata=None, response=None):
     return flow, client, req
 
 
-def header_fields(vc, h):
-    return list(h.fields.items) if vc.mode == "sym" else list(h.fields)
+def raw_fields(vc, msg):
+    """the raw header field tuple of a request (SObj.fields is the engine's attribute dict, hence the indirection)"""
+    h = vc.getattr(msg, "headers")
+    return h.fields["fields"] if vc.mode == "sym" else h.fields
+
+
+def header_fields(vc, msg):
+    f = raw_fields(vc, msg)
+    return list(f.items) if vc.mode == "sym" else list(f)
 
 
 def lower_name(vc, f):
@@ -373,12 +381,12 @@ def s_authenticate(vc):
     accepted = (not raises) and vc.branch(And(ok, valid_pred(vc, user, password)))
     res = out.result
     vc.ensure("result.iff_parsed_pair_is_valid", vc.eq(res, bool(accepted)))
-    after = header_fields(vc, req.headers)
+    after = header_fields(vc, req)
     names_after = [lower_name(vc, f) for f in after]
     if accepted:
         vc.ensure("accepted.credential_header_removed", cred_name.lower() not in names_after)
         exp = [f for f in fields if f[0].lower() != cred_name.lower()]
-        vc.ensure("accepted.other_headers_untouched", vc.eq(req.headers.fields, tuple(exp)))
+        vc.ensure("accepted.other_headers_untouched", vc.eq(raw_fields(vc, req), tuple(exp)))
         md = flow.metadata
         vc.ensure("accepted.metadata_pair", vc.eq(_dict_get(vc, md, "proxyauth"), (user, password)))
         vc.ensure("accepted.no_response_set", isnone(flow.response))
@@ -391,7 +399,7 @@ def s_authenticate(vc):
             want = "Proxy-Authenticate" if is_proxy else "WWW-Authenticate"
             vc.ensure("rejected.challenge_header", vc.eq(_only_key(vc, ch), want))
             vc.ensure("rejected.challenge_is_basic", startswith(_only_value(vc, ch), "Basic realm="))
-        vc.ensure("rejected.request_untouched", vc.eq(req.headers.fields, tuple(fields)))
+        vc.ensure("rejected.request_untouched", vc.eq(raw_fields(vc, req), tuple(fields)))
         vc.ensure("rejected.no_metadata", "proxyauth" not in _keys(vc, flow.metadata))
     vc.ensure("frame.authenticated_untouched", len_(self_.authenticated) == 0)
 
@@ -467,7 +475,7 @@ def s_requestheaders(vc):
     if with_validator and known == "authenticated":
         vc.ensure("authenticated_connection.metadata_from_handshake", vc.eq(_dict_get(vc, flow.metadata, "proxyauth"), stored))
     vc.ensure("authenticated_map_untouched", len_(self_.authenticated) == len(entries))
-    vc.ensure("request_untouched_here", vc.eq(req.headers.fields, ((b"Host", b"example.com"),)))
+    vc.ensure("request_untouched_here", vc.eq(raw_fields(vc, req), ((b"Host", b"example.com"),)))
     if not must_auth:
         vc.ensure("no_response_set_here", isnone(flow.response))
 
